@@ -16,6 +16,23 @@
 #include <unordered_map>
 #include <vector>
 
+// manual ASan poisoning of abandoned storage (memcpy-relocation tests)
+#if defined(__SANITIZE_ADDRESS__)
+#include <sanitizer/asan_interface.h>
+#define VH_POISON(p, n) ASAN_POISON_MEMORY_REGION((p), (n))
+#define VH_UNPOISON(p, n) ASAN_UNPOISON_MEMORY_REGION((p), (n))
+#elif defined(__has_feature)
+#if __has_feature(address_sanitizer)
+#include <sanitizer/asan_interface.h>
+#define VH_POISON(p, n) ASAN_POISON_MEMORY_REGION((p), (n))
+#define VH_UNPOISON(p, n) ASAN_UNPOISON_MEMORY_REGION((p), (n))
+#endif
+#endif
+#ifndef VH_POISON
+#define VH_POISON(p, n) ((void)0)
+#define VH_UNPOISON(p, n) ((void)0)
+#endif
+
 namespace vh {
 
 struct ElemThrow : std::exception {
